@@ -44,6 +44,10 @@ def import_pams():
     return pams
 
 
+NOPX = -1      # PamsOrder!NoPx: Python's None for a price (0 is a legitimate accepted price: a bid below one tick)
+BADPX = -2     # a value that cannot be projected to the unit grid (soft projection)
+
+
 class Units:
     """Projection of float prices to integer 'units' (one tick = den units).
 
@@ -62,7 +66,7 @@ class Units:
 
     def u(self, x, soft=False):
         if x is None:
-            return 0
+            return NOPX
         if isinstance(x, float) and (math.isnan(x) or math.isinf(x)):
             if soft:
                 return None
